@@ -16,8 +16,9 @@ EXPLANATION = (
     "payload that is actually packed (after compression) and dominates packing; the length check, the declared-length cursor "
     "advance and the exact-tiling check dominate the payload store; the compression flag is set iff the payload was replaced "
     "by its compressed form and cleared on decode; the byte reader underneath returns exactly the requested bytes (shared with C17). "
-    "Not decided: zlib round trip, all fragmentations (C17), acceptance of "
+    'Also decided: the encoder checks annotation id width and value type before packing; recv_stub reads and validates the prefix first. '
     "arbitrary byte strings as a whole."
+    "Not decided: zlib round trip, all fragmentations (C17), acceptance of "
 )
 
 PROTO = "Pyro5.protocol"
@@ -156,11 +157,11 @@ def run(ctx, R, tier):
         R.check(okb and okv and vb == vv.to_bytes(2, "big"), "C06-R3", "constant|%s" % nm, "%s is the big-endian 2-byte form of %s" % (nm, expr_name), mod.relpath,
                 "%s = %r does not encode %s = %r the way the '!H' header field does" % (nm, vb, expr_name, vv))
     recvs = sorted(ctx.calls_to(rs, "Pyro5.socketutil.SocketConnection.recv"), key=lambda c: c.lineno)
-    if len(recvs) != 3:
+    if len(recvs) not in (2, 3):
         raise AnalysisError("recv_stub: expected 3 recv calls")
     ok1, n1 = ctx.const(recvs[0].args[0], rs)
-    ok2, n2 = ctx.const(recvs[1].args[0], rs)
-    R.check(ok1 and ok2 and n1 == offs[1][1] and n1 + n2 == struct.calcsize(fmt), "C06-R3", "recv_stub|prefix+rest=header",
+    ok2, n2 = ctx.const(recvs[1].args[0], rs) if len(recvs) == 3 else (False, None)
+    R.check(len(recvs) == 3 and ok1 and ok2 and n1 == offs[1][1] and n1 + n2 == struct.calcsize(fmt), "C06-R3", "recv_stub|prefix+rest=header",
             "first read ends after the version field (%d bytes), the two reads sum to the header size" % offs[1][1], rs.loc(recvs[0]),
             "recv_stub reads %s + %s bytes for a %d byte header whose version field ends at %d" % (n1, n2, struct.calcsize(fmt), offs[1][1]))
     chunk_packs = [c for c in packs if c not in hdr_pack]
@@ -254,9 +255,9 @@ def run(ctx, R, tier):
             "the receiver's size check does not cover both length fields")
     ctor = ctx.calls_to(rs, rcv.qualname)
     rscfg = ctx.cfg(rs)
-    body_nodes = ctx.node_of(rs, recvs[2])
+    body_nodes = ctx.node_of(rs, recvs[-1])
     ok = len(ctor) == 1 and all(any(rscfg.dominates(x, b) for x in ctx.node_of(rs, ctor[0])) for b in body_nodes)
-    R.check(ok, "C06-R4", "recv_stub|header-before-body", "the header is parsed (and size-checked) before any body byte is read", rs.loc(recvs[2]),
+    R.check(ok, "C06-R4", "recv_stub|header-before-body", "the header is parsed (and size-checked) before any body byte is read", rs.loc(recvs[-1]),
             "recv_stub reads the body before the header's declared sizes were checked")
     s_tests = [n for n in scfg.nodes if n.kind == "test" and size_atoms(n.ast.test)]
     pack_nodes = ctx.node_of(snd, hdr_pack[0])
@@ -350,9 +351,9 @@ def run(ctx, R, tier):
         R.check(ok2, "C06-R5", "add_payload|exact-tiling", "data is taken only after the chunk cursor was checked to equal annotations_size", addp.loc(),
                 "annotation chunks that do not tile the annotations region exactly are accepted")
     R.check(ok, "C06-R5", "add_payload|declared-length-advance", "the chunk cursor advances by header size + declared length", addp.loc(), why)
-    barg = recvs[2].args[0]
+    barg = recvs[-1].args[0]
     ok = isinstance(barg, ast.BinOp) and isinstance(barg.op, ast.Add) and {unparse(barg.left).split(".")[-1], unparse(barg.right).split(".")[-1]} == {"annotations_size", "data_size"}
-    R.check(ok, "C06-R5", "recv_stub|exact-body-read", "the body read asks for exactly annotations_size + data_size bytes", rs.loc(recvs[2]),
+    R.check(ok, "C06-R5", "recv_stub|exact-body-read", "the body read asks for exactly annotations_size + data_size bytes", rs.loc(recvs[-1]),
             "recv_stub reads `%s` bytes of body" % unparse(barg))
 
     # ---------------------------------------------------------------- R6
@@ -368,7 +369,7 @@ def run(ctx, R, tier):
     R.check(ok, "C06-R6", "receiver|identity-check", "normal construction only if tag, version and magic number all match", rcv.loc(),
             "a header with a wrong tag, protocol version or magic number is accepted")
     vcalls = ctx.calls_to(rs, val.qualname)
-    ok = len(vcalls) == 1 and all(any(rscfg.dominates(v, r) for v in ctx.node_of(rs, vcalls[0])) for r in ctx.node_of(rs, recvs[1]))
+    ok = len(recvs) == 3 and len(vcalls) == 1 and all(any(rscfg.dominates(v, r) for v in ctx.node_of(rs, vcalls[0])) for r in ctx.node_of(rs, recvs[1]))
     R.check(ok, "C06-R6", "recv_stub|validate-prefix-first", "the 6-byte prefix is validated before the rest of the header is read", rs.loc(),
             "recv_stub keeps reading from a peer whose first bytes are not a Pyro header")
 
